@@ -166,3 +166,28 @@ def parse_eval_blocks(out):
     for m in re.finditer(r"^\s*= (.*?)\n\s*: [^\n]*(?:\n|$)", out, re.S | re.M):
         vals.append(" ".join(m.group(1).split()))
     return vals
+
+
+def coq_eval_bool_cases(ctx, name, header, items, shard=60, workers=12, timeout=900):
+    """items: list of Coq boolean expressions.  Evaluates them by vm_compute in parallel shards.
+    Returns (ok, failing_indices, detail)."""
+    from concurrent.futures import ThreadPoolExecutor
+
+    shards = [items[i : i + shard] for i in range(0, len(items), shard)]
+
+    def one(k):
+        body = header + "\nDefinition cases : list bool := [\n" + ";\n".join("  " + x for x in shards[k]) + "\n].\nEval vm_compute in (failing cases).\n"
+        rc, out = coq_eval(ctx, "%s_%03d" % (name, k), body, timeout=timeout)
+        vals = parse_eval_blocks(out)
+        if rc != 0 or not vals:
+            return k, None, out[-1500:]
+        bad = [int(x) for x in vals[0].replace("%nat", "").strip("[] ").split(";") if x.strip()]
+        return k, bad, ""
+
+    failing = []
+    with ThreadPoolExecutor(max_workers=workers) as ex:
+        for k, bad, detail in ex.map(one, range(len(shards))):
+            if bad is None:
+                return False, [], detail
+            failing += [k * shard + b for b in bad]
+    return True, failing, ""
